@@ -153,6 +153,9 @@ func (cs ClientState) UpgradeState(
 	store sdk.KVStore,
 	state exported.ConsensusState,
 ) error {
+	// the consensus state installed by the upgrade needs its processed time and iteration key,
+	// otherwise no proof at the upgraded height can be verified and the height is never pruned
+	setConsensusMetadata(ctx, store, cs.GetLatestHeight())
 	return nil
 }
 
